@@ -272,6 +272,9 @@ PerturbMask(b) == UNION {Perturb1(x) : x \in Stray(b)}
 CfgsC10 == { Cfg("gin", "3.0.0", FALSE, NoSec, <<"s1">>) }
 CtrlsC10 == { Ctl("p1", "f1", "AController", pre, "A", <<>>) : pre \in {"/a", "/a/{t}"} }
 MethodsC10single == {BaseJ, BaseF, BaseJr, BaseFr, BaseP} \cup Perturb1(BaseJ) \cup Perturb1(BaseF) \cup Perturb1(BaseJr) \cup Perturb1(BaseFr) \cup Perturb1(BaseP)
+\* the core of the single-perturbation space (three bases, one controller prefix): small enough to be run in full on every change
+CtrlsC10core == { Ctl("p1", "f1", "AController", "/a", "A", <<>>) }
+MethodsC10core == {BaseJ, BaseF, BaseP} \cup Perturb1(BaseJ) \cup Perturb1(BaseF) \cup Perturb1(BaseP)
 MethodsC10double == Perturb2(BaseJ) \cup Perturb2(BaseF) \cup Perturb2(BaseJr)
 MethodsC10mask == Stray(BaseJ) \cup Stray(BaseF) \cup Stray(BaseP) \cup PerturbMask(BaseJ) \cup PerturbMask(BaseF) \cup PerturbMask(BaseP)
 
